@@ -218,7 +218,9 @@ thread_local! {
 /// catch_unwind for calls into the library under test.
 fn guarded<R>(f: impl FnOnce() -> R) -> std::thread::Result<R> {
     QUIET.with(|q| q.set(true));
+    crate::alloc::enter();
     let r = catch_unwind(AssertUnwindSafe(f));
+    crate::alloc::exit();
     QUIET.with(|q| q.set(false));
     r
 }
@@ -275,6 +277,10 @@ pub struct ReaderSetup<'a> {
 pub fn run_reader_t<T: Spec>(s: &ReaderSetup) -> RTrace {
     let mut src = SimReader::new(s.input.clone(), s.script.clone());
     src.virtual_tail = s.virtual_tail;
+    if s.virtual_tail > 0 {
+        // legitimately reading a virtual payload takes calls too
+        src.call_budget += s.virtual_tail.min(1 << 26) as usize;
+    }
     src.keep_log = s.keep_read_log;
     let bufd = buffered_tags::<T>(s.cfg);
     let mut it: TagIterator<SimReader, T> = match s.cfg.capacity {
